@@ -83,3 +83,16 @@ chk('C16', 'exploration',
     'runtime monitoring: executable reference model compared after every '
     'operation + exhaustive small-graph enumeration + icontract invariant',
     'DESIGN.md section 4 (C16)')
+chk('C17', 'exploration',
+    'Every filter_by / select_by / merge executed on the real Browser in '
+    'random chains (items over small pools of keys and hashable values '
+    'including 1/1.0/True, tuples, None; three data keys; hashable and '
+    'unhashable data; present and absent keys and values; include / exclude) '
+    'is compared with a naive scan of a reference list: items, order, '
+    'identity of data objects, data key, globals, keys(), available_values(), '
+    'documented exceptions; input dictionaries, globals and source browsers '
+    'are digested before and after.',
+    'the reserved key "index" is not user metadata; sampling only',
+    'runtime monitoring: naive-scan reference model compared after every '
+    'operation + deep snapshots of inputs',
+    'DESIGN.md section 4 (C17)')
